@@ -30,6 +30,24 @@ type yOuter struct {
 	skip   int
 }
 
+type yBase struct {
+	Host string `yaml:"host"`
+	Port int    `yaml:"port"`
+}
+
+type yAnchored struct {
+	Base  *yBase `yaml:"base,anchor"`
+	Name  string `yaml:"name"`
+	Again *yBase `yaml:"again"`
+}
+
+// yamlGoValuePair: two values that share a pointer, one of them marking it as a YAML
+// anchor; they are recorded in turns, each must marshal to its own text every time.
+func yamlGoValuePair(r *rand.Rand) (any, any, string) {
+	b := &yBase{Host: pick2(r, "db.internal", "h", "a: b"), Port: 5000 + r.IntN(1000)}
+	return b, yAnchored{Base: b, Name: "svc", Again: &yBase{Host: "other", Port: 1}}, "pointer-shared-with-an-anchor-tagged-struct"
+}
+
 func yamlGoValue(r *rand.Rand) (any, string) {
 	switch r.IntN(4) {
 	case 0:
@@ -50,7 +68,7 @@ func yamlGoValue(r *rand.Rand) (any, string) {
 }
 
 func checkC18(c *vkit.Ctx) {
-	c.P.Rule = "three sub-workloads: (a) valid YAML text (multi-document streams, block scalars containing `---` / `/-/-/-/`, comments, anchors, flow sequences that look like entry headers, with/without final newline, trailing blank lines) passed as string or []byte to MatchYAML without matchers into a file that already holds a neighbour entry: the body found by the independent reader must equal the input with whole `---` lines escaped, byte for byte, and a replay in a fresh simulated process must pass without writing; (b) marshalable Go values (maps with >=3 keys, nested tagged structs, slices, maps of maps) recorded 50 times in fresh slots across simulated process restarts: all texts equal; (c) invalid YAML, alone or together with matchers that have nothing to object to (Any/Custom on an existing member, lenient Any/Type on a missing path, Any without paths), in four modes over missing/existing slots: exactly one Error, digest unchanged; non-trivial = document carrying >=1 hostile YAML class, any Go value, any invalid document; distinct by hash(input, form)"
+	c.P.Rule = "three sub-workloads: (a) valid YAML text (multi-document streams, block scalars containing `---` / `/-/-/-/`, comments, anchors, flow sequences that look like entry headers, with/without final newline, trailing blank lines) passed as string or []byte to MatchYAML without matchers into a file that already holds a neighbour entry: the body found by the independent reader must equal the input with whole `---` lines escaped, byte for byte, and a replay in a fresh simulated process must pass without writing; (b) marshalable Go values (maps with >=3 keys, nested tagged structs, slices, maps of maps, a pointer value recorded in turns with an anchor-tagged struct that shares the pointer) recorded 50 times in fresh slots across simulated process restarts: all texts equal; (c) invalid YAML, alone or together with matchers that have nothing to object to (Any/Custom on an existing member, lenient Any/Type on a missing path, Any without paths), in four modes over missing/existing slots: exactly one Error, digest unchanged; non-trivial = document carrying >=1 hostile YAML class, any Go value, any invalid document; distinct by hash(input, form)"
 	c.P.Assumptions = []string{"goccy/go-yaml's decoder decides which generated texts are valid YAML"}
 	n := c.N(40000, 1000000)
 	for i := 0; i < n; i++ {
@@ -180,12 +198,22 @@ func c18Verbatim(c *vkit.Ctx, r *rand.Rand, i int) {
 
 func c18GoValue(c *vkit.Ctx, r *rand.Rand, i int) {
 	v, kind := yamlGoValue(r)
+	var alt any
+	if r.IntN(5) == 0 {
+		v, alt, kind = yamlGoValuePair(r)
+	}
 	root := vkit.MkScratch("c18g")
 	defer os.RemoveAll(root)
 	snaps.VerifSetMode(false, "")
 	snaps.VerifSetNoColor(true)
 	var first string
+	var firsts [2]string
 	for k := 0; k < 50; k++ {
+		v := v
+		which := 0
+		if alt != nil && k%2 == 1 {
+			v, which = alt, 1
+		}
 		if k%5 == 0 {
 			snaps.VerifResetProcessState()
 		}
@@ -207,8 +235,15 @@ func c18GoValue(c *vkit.Ctx, r *rand.Rand, i int) {
 		body := ents[idx[0]].Body
 		if k == 0 {
 			first = body
-		} else if body != first {
-			c.Violate("go-value-marshals-differently", "", fmt.Sprintf("%s value: recording %d gave %s, recording 0 gave %s", kind, k, vkit.Q(body), vkit.Q(first)), map[string]any{"kind": kind})
+		}
+		if k < 2 {
+			firsts[which] = body
+		} else if body != firsts[which] {
+			c.Violate("go-value-marshals-differently", "", fmt.Sprintf("%s value: recording %d gave %s, recording %d gave %s", kind, k, vkit.Q(body), which, vkit.Q(firsts[which])), map[string]any{"kind": kind})
+			return
+		}
+		if which == 0 && strings.Contains(body, "*") && alt != nil {
+			c.Violate("go-value-marshals-differently", "", fmt.Sprintf("%s value: the plain pointer value was written as an alias: %s", kind, vkit.Q(body)), map[string]any{"kind": kind})
 			return
 		}
 		c.Count("go_value_recordings", 1)
